@@ -330,3 +330,40 @@ pub fn netprobe(dir: &str) -> String {
     format!("connect ring={} direct={} ; accept ring_res_ok={} ring_addrlen={} ring_family={} direct_res_ok={} direct_addrlen={} direct_family={} ({})",
         ring_connect, direct_connect, ring_accept >= 0, alen as u32, u16::from_le_bytes([sa[0], sa[1]]), r >= 0, alen2, u16::from_le_bytes([sa2[0], sa2[1]]), direct_family_len)
 }
+
+/// `refrace <entries>`: on the REAL ring.  `get_next_cqe` advances the shared completion head before the caller
+/// has read the entry it returns a reference to.  Fill the completion ring completely plus one overflowed
+/// completion (2*entries + 1 closes of an invalid descriptor, user_data 1..), take the first completion's
+/// reference, let the kernel flush its overflow list (`io_uring_enter(GETEVENTS)`, a safe call that needs
+/// only the copied fd), read through the reference again, then reap the rest.
+pub fn refrace(entries: usize) -> String {
+    let mut ring = match setup_io_uring(entries as u32, IoUringParamFlags::empty(), 0, 0) { Ok(r) => r, Err(e) => return format!("setup-err {:?}", e.code) };
+    let fd = ring.fd;
+    let n = 2 * entries.next_power_of_two() + 1;
+    for i in 0..n {
+        let e = unsafe { IoUringSubmissionQueueEntry::new_close(Fd::try_new(1_000_000).unwrap(), 1 + i as u64, IoUringSQEFlags::empty()) };
+        let slot = match ring.get_next_sqe_slot() { Some(s) => s, None => return "no-slot".into() };
+        unsafe { slot.write(e) };
+        ring.flush_submission_queue();
+        match io_uring_enter(fd, 1, 0, IoUringEnterFlags::empty()) { Ok(1) => {}, r => return format!("enter: {:?}", r.map_err(|e| e.code)) }
+    }
+    let first = match ring.get_next_cqe() { Some(c) => c, None => return "no-cqe".into() };
+    let held_before = first.0.user_data;
+    // the kernel side moves: overflowed completions are flushed into free completion slots
+    if let Err(e) = io_uring_enter(fd, 0, 0, IoUringEnterFlags::IORING_ENTER_GETEVENTS) { return format!("enter: {:?}", e.code); }
+    let held_after = unsafe { core::ptr::read_volatile(first as *const IoUringCompletionQueueEntry) }.0.user_data;
+    let mut reaped = vec![held_after];
+    for _ in 0..(2 * n) {
+        match ring.get_next_cqe() {
+            Some(c) => reaped.push(c.0.user_data),
+            None => {
+                if reaped.len() >= n { break; }
+                if io_uring_enter(fd, 0, 0, IoUringEnterFlags::IORING_ENTER_GETEVENTS).is_err() { break; }
+            }
+        }
+    }
+    let mut sorted = reaped.clone();
+    sorted.sort();
+    let exact = sorted == (1..=n as u64).collect::<Vec<_>>();
+    format!("refrace submitted={} held-before-enter={} held-after-enter={} reaped={:?} exactly-once={}", n, held_before, held_after, reaped, exact)
+}
